@@ -1,0 +1,10 @@
+//go:build verif
+
+// Verification contracts (comments only; compiled only with -tags verif).
+// Checked by /verif/bin/govc; see /verif/DESIGN.md.
+
+package wallet
+
+//@ // C17: lock discipline. The accounts map is built privately and only ever swapped in under the lock.
+//@ type Service
+//@   guarded_by mutex: accounts (replaced)
